@@ -11,3 +11,6 @@ import SpoxModel.Props.C04
 #print axioms C04.visit_spec_inputs
 #print axioms C04.no_outer_leak
 #print axioms C04.leak_rejected
+#print axioms C04.claimed_twice_rejected
+#print axioms C04.multiple_owner_rejected
+#print axioms C04.double_introduction_rejected
